@@ -662,3 +662,59 @@ class BigIntStore(Contract):
         if mode == 'saturate':
             out['own_side'] = And(Implies(R > hi, eq(z, hi)), Implies(R < lo, eq(z, lo)))
         return out
+
+
+# ==========================================================================================================
+@contract
+class SaturateWideFloat(Contract):
+    """BOUNDED stand-in (not a proof): float inputs -- scalars, lists and arrays, of any magnitude -- stored
+    under saturate into words of 54..63 bits, whose limits are not doubles: every code stays inside the
+    format's range, out-of-range inputs are stored as the bound on their own side, and the overflow / underflow
+    flags are raised exactly when the rounded input lies beyond the limits (checked with exact rationals)."""
+    name = 'objects:Fxp.set_val[float into 54..63-bit words] (bounded)'
+    layer = 4
+    native_only = True
+    props = {'*': ['C02'], 'flags_exact': ['C04', 'C02'], 'code_eq_Q': ['C02', 'C01']}
+
+    def configs(self, tier):
+        for n in ((54, 55, 60, 63) if tier == 'quick' else range(52, 64)):
+            for signed in (True, False):
+                for f in (0, 3) if tier == 'quick' else (0, 3, -2):
+                    yield dict(signed=signed, n_word=n, n_frac=f)
+
+    def run(self, cfg, P, inp):
+        import math
+        s, n, f = cfg['signed'], cfg['n_word'], cfg['n_frac']
+        np_ = P.np
+        lo, hi = range_of(s, n)
+        sc = 2.0 ** -f
+        arrs = [[1.0, float(hi + 1) * sc], [1.0, 1e18], [-1.0, -1e19], [float(hi + 1) * sc], [0.5, float(lo) * sc], [0.5, float(lo) * sc * 2],
+                [2.0, float((hi + 1) // 2) * sc], [1e300, -1e300], [3.0], [float(hi + 1) * sc * 0.75, -1.0], [float(2 ** 53) * sc, float(2 ** 53 + 2) * sc]]
+        bad = []; cases = 0
+        for arr in arrs:
+            for car in (np_.array(arr), list(arr), arr[-1], tuple(arr)):
+                cases += 1
+                x = P.Fxp(car, s, n, f, rounding='trunc', overflow='saturate')
+                codes = [int(c) for c in np_.ravel(x.val)]
+                vs = [float(v) for v in (car if isinstance(car, (list, tuple)) else np_.ravel(np_.array(car, dtype=float)).tolist())]
+                exp = []; ov = un = False
+                for v in vs:
+                    r = Fraction(v) * (Fraction(2) ** f)
+                    k = math.floor(r) if r >= 0 else -math.floor(-r)
+                    if k > hi: ov = True; k = hi
+                    if k < lo: un = True; k = lo
+                    exp.append(k)
+                ok = {'in_range': all(lo <= c <= hi for c in codes), 'code_eq_Q': codes == exp,
+                      'flags_exact': bool(x.status['overflow']) == ov and bool(x.status['underflow']) == un}
+                for k_, good in ok.items():
+                    if not good and len(bad) < 6:
+                        bad.append([k_, repr(car)[:80], codes, exp, bool(x.status['overflow']), ov, bool(x.status['underflow']), un])
+        return {'bad': bad, 'cases': cases}
+
+    def post(self, cfg, inp, obs):
+        if obs['exc']:
+            return {}
+        failed = {b[0] for b in obs['bad']}
+        out = {k: (k not in failed) for k in ('in_range', 'code_eq_Q', 'flags_exact')}
+        out['nonvacuous'] = obs['cases'] >= 40
+        return out
